@@ -252,6 +252,13 @@ def plan_checks(rec, sched):
             allb("C04/L-nonincreasing", int(L[j + 1]) <= Lj)
             allb("C04/K-nondecreasing", int(K[j + 1]) >= Kj)
     allb("C03/f0=bmin*fs/N", nf > 0 and abs(f[0] - bmin * fs / N) <= tol * fs)
+    if sched == "lpsd":
+        try:
+            q = S().ltf_plan(**dict(kw, bmin=1.0, Lmin=1))
+            same = len(q["f"]) == nf and bool(rnp.allclose(q["f"], f)) and list(map(int, q["L"])) == list(map(int, L)) and list(map(int, q["K"])) == list(map(int, K))
+        except BaseException:
+            same = False
+        allb("C03/lpsd=ltf(bmin=1,Lmin=1)", same)
     if rec.get("primary"):
         res["C02/analyzer-accepts"] = analyzer_plan(kw, sched) is None
     return res
